@@ -185,7 +185,10 @@ static void vf_sample_now(const vf_case *c) {
 }
 
 /* Execute one case: bookkeeping + run_case(). */
+static const char *vf_op_only = NULL, *vf_op_skip = NULL; /* --op <name>: run only the cases of one operation; --skip-op <name>: leave one out (a harness shared between two properties) */
 static void vf_run(vf_case *c) {
+	if (vf_op_only && strcmp(c->op, vf_op_only)) return;
+	if (vf_op_skip && !strcmp(c->op, vf_op_skip)) return;
 	vf_opinfo *o = vf_op(c->op);
 	o->evals++; vf_total_evals++;
 	if (vf_track) { vf_case_text(vf_trackbuf, sizeof vf_trackbuf, c); alarm(120); }
@@ -281,6 +284,8 @@ static int vf_main(int argc, char **argv) {
 		else if (!strcmp(argv[i], "--deadline") && i + 1 < argc) { vf_deadline = atof(argv[++i]); }
 		else if (!strcmp(argv[i], "--seed") && i + 1 < argc) { vf_seed = atoi(argv[++i]); }
 		else if (!strcmp(argv[i], "--only") && i + 1 < argc) { vf_only = argv[++i]; }
+		else if (!strcmp(argv[i], "--op") && i + 1 < argc) { vf_op_only = argv[++i]; }
+		else if (!strcmp(argv[i], "--skip-op") && i + 1 < argc) { vf_op_skip = argv[++i]; }
 		else if (!strcmp(argv[i], "--stride") && i + 1 < argc) { vf_stride = strtoull(argv[++i], NULL, 10); if (!vf_stride) vf_stride = 1; }
 		else if (!strcmp(argv[i], "--track")) { vf_track = 1; }
 		else if (!strcmp(argv[i], "--replay") && i + 1 < argc) { replay = argv[++i]; }
